@@ -3,6 +3,8 @@
 package cl
 
 import (
+	"strings"
+
 	"fmt"
 	"io"
 
@@ -70,6 +72,7 @@ func (f *Defun) Call(s *slip.Scope, args slip.List, depth int) (result slip.Obje
 	if pkg == nil {
 		pkg = slip.CurrentPackage
 	}
+	low = strings.ToLower(low)
 	lc := slip.DefLambda(low, s, args[1:])
 	fc := func(fargs slip.List) slip.Object {
 		return &slip.Dynamic{
